@@ -158,6 +158,31 @@ CTYPE = {1: ("int", True, 32), 2: ("unsigned", False, 32), 3: ("long", True, 64)
          13: ("short", True, 16), 14: ("unsigned short", False, 16), 15: ("_Bool", False, 8)}
 
 
+FOLDED_DOUBLE = {}   # macro name -> (double)(macro) by clang, filled by clang_fold
+
+
+# macros only clang can read (casts, sizeof), redefinitions from a literal to such a form, and macros that depend on them; values past 32
+# bits and floating values through the same route
+STATEFUL = """#define RW 4
+#undef RW
+#define RW ((int)sizeof(long long))
+#define RW_AREA (RW * 2)
+#define RC ((char)65)
+#define RC_DEP (RC + 1)
+#define RL ((long long)21474836480)
+#define RNEG ((long long)-12884901888)
+#define RL_DEP (RL / 2)
+#define RSZ sizeof(int)
+#define RSZ3 (RSZ * 3)
+#define RU ((unsigned)4000000000)
+#define RF ((double)1 / 2)
+#define RF2 ((float)3 / 4)
+#define RSH ((short)-2)
+#define RB ((_Bool)7)
+"""
+STATEFUL_NAMES = ["RW", "RW_AREA", "RC", "RC_DEP", "RL", "RNEG", "RL_DEP", "RSZ", "RSZ3", "RU", "RF", "RF2", "RSH", "RB"]
+
+
 def clang_fold(header, names, wd, tag):
     """For every macro name: (C type class, integer value) by clang constant folding; macros whose folding errors or warns are dropped."""
     live = list(names)
@@ -167,7 +192,7 @@ def clang_fold(header, names, wd, tag):
         idx = {}
         for n in live:
             idx[len(lines) + 1] = n
-            lines.append(f"const int k_{n} = " + GENERIC.replace("X", n) + f"; const unsigned long long v_{n} = (unsigned long long)({n});")
+            lines.append(f"const int k_{n} = " + GENERIC.replace("X", n) + f"; const unsigned long long v_{n} = (unsigned long long)({n}); const double d_{n} = (double)({n});")
         p = os.path.join(wd, f"fold_{tag}_{attempt}.c")
         open(p, "w").write("\n".join(lines) + "\n")
         rc, out, err = common.clang(["-S", "-emit-llvm", "-O0", "-Wall", "-Wextra", "-Wno-unused", "-ferror-limit=0", "-fno-caret-diagnostics", "-o", "-", p], cwd=wd, timeout=600)
@@ -186,6 +211,10 @@ def clang_fold(header, names, wd, tag):
             res = {}
             for m in re.finditer(r"@(k|v)_(\w+) = .*?constant i(?:32|64) (-?\d+)", out):
                 res.setdefault(m.group(2), {})[m.group(1)] = int(m.group(3))
+            for m in re.finditer(r"@d_(\w+) = .*?constant double (\S+)", out):
+                t = m.group(2).rstrip(",")
+                import struct
+                FOLDED_DOUBLE[m.group(1)] = struct.unpack(">d", bytes.fromhex(t[2:].rjust(16, "0")))[0] if t.startswith("0x") else float(t)
             return {n: (d.get("k"), d.get("v")) for n, d in res.items() if "k" in d and "v" in d}, dropped
         if not bad and rc != 0:
             raise common.Machinery("C05: clang cannot fold the macro table: " + err[:600])
@@ -234,9 +263,10 @@ def run(ck, only=None):
         for n, text, _ in ms:
             f.write(f"#define {n} {text}\n")
         f.write("#define REDEF 1\n#undef REDEF\n#define REDEF 2\n#define UNDEFD 5\n#undef UNDEFD\n#define CHAIN_A CHAIN_B\n#define CHAIN_B 9\n")
+        f.write(STATEFUL)
         for n, t in STRINGS:
             f.write(f"#define {n} {t}\n")
-    names = [n for n, _, _ in ms] + ["REDEF", "CHAIN_A", "CHAIN_B"]
+    names = [n for n, _, _ in ms] + ["REDEF", "CHAIN_A", "CHAIN_B"] + STATEFUL_NAMES
     folded, dropped = clang_fold(hp, names, wd, "macros")
     m64 = {n: v for n, _, v in ms}
     m64.update({"REDEF": 2, "CHAIN_A": 9, "CHAIN_B": 9})
@@ -270,12 +300,21 @@ def run(ck, only=None):
                 continue  # clang itself diagnoses this expression (overflow, bad shift, ...): excluded from value comparison
             k, cv = folded[n]
             if k in (7, 8, 9):
-                fv = None
+                # floating macro: must be emitted with a floating type and the C value (float literals are read as doubles by
+                # bindgen: relative tolerance of one float ulp for `float`-typed macros, exact for double)
+                cd = FOLDED_DOUBLE.get(n)
+                tyk = ty.split("::")[-1]
                 try:
-                    fv = float(expr.replace(" ", "").replace("f64", "").replace("_", ""))
+                    fv = float(expr.replace(" ", "").replace("f64", "").replace("f32", "").replace("_", ""))
                 except ValueError:
-                    pass
-                continue  # float macros: compared below through text only when parsable (kept simple: presence only)
+                    fv = None
+                if cd is None:
+                    continue
+                if tyk not in ("f64", "f32"):
+                    ck.violation(case, dict(det, predicate=None, why=f"floating macro (C value {cd!r}) emitted with integer type `{tyk} = {expr}`"))
+                elif fv is None or (fv != cd and not (abs(fv - cd) <= abs(cd) * (1.2e-7 if k == 7 else 1e-15))):
+                    ck.violation(case, dict(det, predicate=None, why=f"floating macro emitted as `{tyk} = {expr}`, C value {cd!r}"))
+                continue
             if k not in CTYPE:
                 continue
             cname, signed, bits = CTYPE[k]
